@@ -30,6 +30,12 @@ type FmtCase struct {
 	// OtherCase: the text is in <project>/Spokfile and --spokfile points at it, next to a different,
 	// working <project>/spokfile. spok may refuse the name; whatever it does, it must not touch the sibling
 	OtherCase bool `json:"other_case,omitempty"`
+	// History: what happens after the first --fmt. "edit": --fmt again, then a variable and a task
+	// are appended to the file and it is formatted a third time (the file must then define what it
+	// held before that --fmt, and no run may leave other files behind). "restore": a .spok directory
+	// exists; after the first --fmt the original text is written back and formatted again (the same
+	// bytes must format to the same bytes).
+	History string `json:"history,omitempty"`
 }
 
 // genFmt draws an abstract program in a random layout whose loading has no side effects
@@ -43,6 +49,12 @@ func genFmt(t *rapid.T) FmtCase {
 		c.Elsewhere = true
 	case 2:
 		c.OtherCase = true
+	}
+	switch rapid.IntRange(0, 5).Draw(t, "history") {
+	case 0:
+		c.History = "edit"
+	case 1:
+		c.History = "restore"
 	}
 	return c
 }
@@ -138,6 +150,10 @@ func execFmtBinary(id string, s *ev.Shard, b *sandbox.Box, c FmtCase) *rp.Fail {
 		path = filepath.Join(b.Proj, "Spokfile")
 		fmtArgs = []string{"--spokfile", path, "--fmt"}
 	}
+	if c.History == "restore" {
+		files[".spok/cache.json"] = "{}"
+		files[".spok/.gitignore"] = "*\n"
+	}
 	if err := writeProject(b, b.Proj, files); err != nil {
 		return &rp.Fail{Sig: "harness", Msg: err.Error()}
 	}
@@ -218,11 +234,17 @@ func execFmtBinary(id string, s *ev.Shard, b *sandbox.Box, c FmtCase) *rp.Fail {
 		if err2 != nil {
 			return nil
 		}
+		if c.History == "restore" {
+			break // the second run comes after the restore, see fmtHistory
+		}
 		r2 := b.Run(cwd, nil, runTimeout, fmtArgs...)
 		data2, _ := os.ReadFile(path)
 		if r2.Exit != 0 || string(data2) != f1 {
 			return &rp.Fail{Sig: "fmt-not-idempotent", Size: size, Msg: fmt.Sprintf("spokfile %q: first --fmt gives %q, second --fmt (exit %d) gives %q", src, f1, r2.Exit, data2)}
 		}
+	}
+	if f := fmtHistory(id, s, b, c, src, f1, path, cwd, fmtArgs, size); f != nil {
+		return f
 	}
 	if s != nil {
 		switch {
@@ -245,4 +267,109 @@ func clip(x string) string {
 		return x[:300] + fmt.Sprintf(" …(%d bytes)… ", len(x)-600) + x[len(x)-300:]
 	}
 	return x
+}
+
+// fmtHistory continues a case after its first successful --fmt (f1 = the file after it).
+func fmtHistory(id string, s *ev.Shard, b *sandbox.Box, c FmtCase, src, f1, path, cwd string, fmtArgs []string, size int) *rp.Fail {
+	if _, err := parser.New(f1).Parse(); err != nil {
+		return nil // C07's subject, reported there
+	}
+	target, _ := filepath.Rel(b.SB, path)
+	projRel, _ := filepath.Rel(b.SB, b.Proj)
+	framed := func(what string) (sandbox.Result, *rp.Fail) {
+		before, err := sandbox.Snapshot(b.SB)
+		if err != nil {
+			return sandbox.Result{}, &rp.Fail{Sig: "harness", Msg: err.Error()}
+		}
+		r := b.Run(cwd, nil, runTimeout, fmtArgs...)
+		after, err := sandbox.Snapshot(b.SB)
+		if err != nil {
+			return r, &rp.Fail{Sig: "harness", Msg: err.Error()}
+		}
+		for _, ch := range sandbox.Diff(before, after) {
+			if ch.Path == filepath.ToSlash(target) || sandbox.Under(ch.Path, filepath.ToSlash(projRel)+"/.spok") {
+				continue
+			}
+			if id == "C07" {
+				return r, &rp.Fail{Sig: "fmt-touched-another-file", Size: size, Msg: fmt.Sprintf("spokfile %q, %s: %s was %s, which is not the file --fmt was pointed at", clip(src), what, ch.Path, ch.What)}
+			}
+		}
+		return r, nil
+	}
+	switch c.History {
+	case "edit":
+		if _, f := framed("second --fmt"); f != nil {
+			return f
+		}
+		cur, err := os.ReadFile(path)
+		if err != nil {
+			return &rp.Fail{Sig: "fmt-removed-spokfile", Size: size, Msg: fmt.Sprintf("spokfile %q: gone after the second --fmt: %v", clip(src), err)}
+		}
+		edited := string(cur) + "\nLATER := \"added\"\n\n# added later\ntask later() {\n    echo later\n}\n"
+		treeE, errE := parser.New(edited).Parse()
+		if errE != nil {
+			return nil
+		}
+		if err := os.WriteFile(path, []byte(edited), 0o644); err != nil {
+			return &rp.Fail{Sig: "harness", Msg: err.Error()}
+		}
+		_ = b.Own()
+		r3, f := framed("third --fmt (after an edit)")
+		if f != nil {
+			return f
+		}
+		data3, _ := os.ReadFile(path)
+		tree3, err3 := parser.New(string(data3)).Parse()
+		if r3.Exit != 0 {
+			return nil // refusing is not changing
+		}
+		switch id {
+		case "C07":
+			if err3 != nil {
+				return &rp.Fail{Sig: "fmt-broke-spokfile", Size: size, Msg: fmt.Sprintf("spokfile %q parses (it was formatted twice, then a variable and a task were appended); after the next `spok --fmt` the file is %q which does not: %v", clip(edited), clip(string(data3)), err3)}
+			}
+			if d := gen.Diff(gen.Semantic(gen.Project(tree3)), gen.Semantic(gen.Project(treeE))); d != "" {
+				return &rp.Fail{Sig: "fmt-changed-meaning", Size: size, Msg: fmt.Sprintf("spokfile %q (formatted twice, then a variable and a task appended); after the next `spok --fmt` the file is %q and defines different things: %s", clip(edited), clip(string(data3)), d)}
+			}
+		case "C15":
+			if err3 == nil {
+				c1, c2 := gen.Comments(gen.Project(treeE)), gen.Comments(gen.Project(tree3))
+				if strings.Join(c1, "\x00") != strings.Join(c2, "\x00") {
+					return &rp.Fail{Sig: "fmt-changed-comments", Size: size, Msg: fmt.Sprintf("spokfile %q (formatted twice, then edited) has comments/docstrings %q; after the next `spok --fmt` the file %q has %q", clip(edited), c1, clip(string(data3)), c2)}
+				}
+			}
+		case "C06":
+			if want := treeE.String(); string(data3) != want {
+				return &rp.Fail{Sig: "cli-parsed-different-structure", Size: size, Msg: fmt.Sprintf("spokfile %q (formatted twice, then edited): the parser's tree renders as %q, the tree the third `spok --fmt` built renders as %q", clip(edited), clip(want), clip(string(data3)))}
+			}
+		}
+		if s != nil {
+			s.Class("fmt_history_edit_between_formats")
+		}
+	case "restore":
+		if id != "C11" {
+			return nil
+		}
+		if err := os.WriteFile(path, []byte(src), 0o644); err != nil {
+			return &rp.Fail{Sig: "harness", Msg: err.Error()}
+		}
+		_ = b.Own()
+		r, f := framed("--fmt of the restored text")
+		if f != nil {
+			return f
+		}
+		again, _ := os.ReadFile(path)
+		if r.Exit != 0 || string(again) != f1 {
+			return &rp.Fail{Sig: "fmt-not-a-function-of-the-text", Size: size, Msg: fmt.Sprintf("spokfile %q: the first --fmt gives %q; with the same text written back the next --fmt (exit %d) leaves %q", clip(src), clip(f1), r.Exit, clip(string(again)))}
+		}
+		r, _ = framed("--fmt once more")
+		again, _ = os.ReadFile(path)
+		if r.Exit != 0 || string(again) != f1 {
+			return &rp.Fail{Sig: "fmt-not-idempotent", Size: size, Msg: fmt.Sprintf("spokfile %q: formatted, restored, formatted (%q), and one more --fmt (exit %d) gives %q", clip(src), clip(f1), r.Exit, clip(string(again)))}
+		}
+		if s != nil {
+			s.Class("fmt_history_restore_and_format_again")
+		}
+	}
+	return nil
 }
